@@ -258,7 +258,7 @@ Fixpoint find_by_peer (l : list record) (fab peer : N) : option record :=
   | [] => None
   | r :: t => if (r_fab r =? fab) && (r_peer r =? peer) then Some r else find_by_peer t fab peer
   end.
-Definition MAX_RECORDS : nat := 4.
+Definition MAX_RECORDS : nat := 16.   (* the crate's bound is build dependent, at most 16 *)
 Definition insert_or_update (l : list record) (r : record) : list record :=
   let l1 := filter (fun x => negb ((r_fab x =? r_fab r) && (r_peer x =? r_peer r))) l in
   let l2 := if Nat.leb MAX_RECORDS (length l1) then tl l1 else l1 in
